@@ -19,7 +19,7 @@ import gen
 from common import CONFIG_INI, Quiet, coq_bad, listlit, oulit, pmap, ulit
 
 IDKEYS = ["id", "Id", "ID", "name", "Name", "NAME"]
-IDVALS = ["a", "b", "c", "p1", "first-one", "x_2", "B"]
+IDVALS = ["a", "b", "c", "p1", "first-one", "x_2", "B", "my path", "line check 2"]      # an identity may be several words
 
 
 def gen_path(rng, k):
@@ -91,6 +91,8 @@ def group_impl(job):
                         raise ValueError("'g#%s' and '$g.csvpaths.%s' differ" % (i, i))
                     to = pm.get_named_paths(f"g#{i}:to")
                     frm = pm.get_named_paths(f"g#{i}:from")
+                    if pm.get_named_paths(f"$g.csvpaths.{i}:to") != to or pm.get_named_paths(f"$g.csvpaths.{i}:from") != frm:
+                        raise ValueError("'g#%s:to/:from' and '$g.csvpaths.%s:to/:from' differ" % (i, i))
                 except ValueError:
                     raise
                 except Exception:  # noqa  (not found -> InputException)
